@@ -109,7 +109,33 @@ def dimWidth (coords : List Rat) : Except AErr Rat :=
   | .ok (lo, hi) => .ok (hi - lo)
   | .error e => .error e
 
+/-! ## histories: each call works on what the previous call returned -/
+
+/-- one call of a history -/
+inductive Step (α : Type)
+  | crop (start stop : Option Rat) (leftClosed rightClosed : Bool) (eps : Rat)
+  | extend (start stop : Option Rat) (fill : α) (eps : Rat) (leftClosed rightClosed : Bool)
+  | width (w : Int) (fill : α) (pos : Option Pos)
+
+/-- one call on the array as it is now.  The `step` attribute travels with the coordinate
+    (`sel` and `reindex` keep coordinate attributes); nothing else of the past does: the result of a
+    call depends only on the coordinates and data the array has at that moment (in particular not
+    on the `start` / `stop` attributes an earlier `extend_dim` wrote). -/
+def applyStep {α} (attr : Option Rat) (a : Samples α) : Step α → Except AErr (Samples α)
+  | .crop start stop lc rc eps => cropDim a start stop lc rc eps
+  | .extend start stop fill eps lc rc => extendDim a attr start stop fill eps lc rc
+  | .width w fill pos => adjustWidth a attr w fill pos
+
+/-- the result of every call of a history, in order; the history ends with the first call that raises -/
+def runChain {α} (attr : Option Rat) (a : Samples α) : List (Step α) → List (Except AErr (Samples α))
+  | [] => []
+  | s :: rest =>
+    match applyStep attr a s with
+    | .error e => [.error e]
+    | .ok r => .ok r :: runChain attr r rest
+
 end SE.Axis
+
 
 /-- closing tactic of the regenerated kernel ties of C17 (tie 1b): extracted decision tree = model -/
 macro "se_c17" : tactic =>
